@@ -36,6 +36,8 @@ def main():
         if cases.PROCESS_STATS["worlds"]:
             chk.counters["worlds queried once more alone in a fresh process (queries reversed) / queries compared"] = "%d / %d" % (
                 cases.PROCESS_STATS["worlds"], cases.PROCESS_STATS["queries"])
+        if cases.PROCESS_STATS.get("reused"):
+            chk.counters["queries repeated in a fresh process with one world alive at a time (each destroyed before the next is built)"] = cases.PROCESS_STATS["reused"]
         if cases.MERGE_STATS["surfaces"]:
             chk.counters["depth surfaces whose nodal values were compared with the model's merge (Kernels.merge_values)"] = cases.MERGE_STATS["surfaces"]
     except common.TieError as e:
